@@ -102,6 +102,26 @@ fn q_typed_n<const D: u64, const N: usize>(buf: &[u8], rep: usize) -> String {
     }
 }
 fn q_typed<const D: u64>(buf: &[u8], rep: usize, sidx: usize) -> String { with_size!(sidx, q_typed_n, D, buf, rep) }
+/// the same lookups through the mutable view (its getters are separate code)
+fn q_bytes_mut<const D: u64>(buf: &[u8], rep: usize) -> String {
+    let mut copy = buf.to_vec();
+    let base = copy.as_ptr() as usize;
+    let mut st = match TlvStateMut::unpack(&mut copy) { Ok(s) => s, Err(x) => return format!("nounpack:{}", e(&x)) };
+    match st.get_bytes_with_repetition_mut::<Tag<D>>(rep) {
+        Ok(s) => { let lo = s.as_ptr() as usize - base; format!("ok:{lo}:{}", lo + s.len()) }
+        Err(x) => e(&x),
+    }
+}
+fn q_typed_mut_n<const D: u64, const N: usize>(buf: &[u8], rep: usize) -> String {
+    let mut copy = buf.to_vec();
+    let base = copy.as_ptr() as usize;
+    let mut st = match TlvStateMut::unpack(&mut copy) { Ok(s) => s, Err(x) => return format!("nounpack:{}", e(&x)) };
+    match st.get_value_with_repetition_mut::<Val<D, N>>(rep) {
+        Ok(v) => { let lo = v as *mut _ as usize - base; format!("ok:{lo}:{}", lo + N) }
+        Err(x) => e(&x),
+    }
+}
+fn q_typed_mut<const D: u64>(buf: &[u8], rep: usize, sidx: usize) -> String { with_size!(sidx, q_typed_mut_n, D, buf, rep) }
 
 /// raw lookups *without* requiring unpack to succeed are not part of the API; the three views:
 fn three_views(buf: &[u8]) -> (String, Option<String>) {
@@ -149,6 +169,13 @@ fn run_query(t: &[&str], out: &mut RunOut, line: &str) -> (String, Option<String
     let bs = b.clone().unwrap_or("panic".into());
     let vs = v.clone().unwrap_or("panic".into());
     if b.is_none() || v.is_none() { err = Some("lookup panicked".into()); }
+    // the mutable view's getters must answer exactly like the read-only ones
+    let bm = guarded(|| with_tag!(tag, q_bytes_mut, &buf, rep)).unwrap_or("panic".into());
+    let vm = if t[4] == "-" { "-".to_string() } else { let s: usize = t[4].parse().unwrap(); guarded(|| with_tag!(tag, q_typed_mut, &buf, rep, s)).unwrap_or("panic".into()) };
+    let cls = |x: &str| x.split('|').next().unwrap().to_string();
+    if cls(&bm) != cls(&bs) || cls(&vm) != cls(&vs) { err = Some(format!("the mutable view's lookup differs from the read-only one: bytes {bm} vs {bs}, typed {vm} vs {vs}")); }
+    let bs = if cls(&bm) == cls(&bs) { bs } else { format!("{bs}/mut:{bm}") };
+    let vs = if cls(&vm) == cls(&vs) { vs } else { format!("{vs}/mut:{vm}") };
     // oracle: the format, stated independently
     let spec = spec_parse(&buf);
     match (&spec, views.starts_with("ok")) {
@@ -417,7 +444,7 @@ pub fn run(prop: &str, cases: &[String]) -> RunOut {
             }
             other => panic!("unknown op {other}"),
         };
-        out.push(impl_line, err.map_or(Ok(()), Err));
+        out.push(demote_codes(&impl_line), err.map_or(Ok(()), Err));
     }
     out
 }
